@@ -494,13 +494,18 @@ func (s *Session) Data(r io.Reader) error {
 	if err != nil {
 		return wrapErr(err)
 	}
+	committed := false
 	defer func() {
 		if err := buf.Remove(); err != nil {
 			s.log.Error("failed to remove buffered body", err)
 		}
 
 		// go-smtp will call Reset, but it will call Abort if delivery is non-nil.
-		s.cleanSession()
+		// That is exactly what is needed if we did not get to Commit: the
+		// delivery is still open then.
+		if committed {
+			s.cleanSession()
+		}
 	}()
 
 	if err := s.checkRoutingLoops(header); err != nil {
@@ -515,6 +520,8 @@ func (s *Session) Data(r io.Reader) error {
 		return wrapErr(err)
 	}
 
+	// Commit closes the delivery even if it fails.
+	committed = true
 	if err := s.delivery.Commit(bodyCtx); err != nil {
 		return wrapErr(err)
 	}
@@ -549,13 +556,18 @@ func (s *Session) LMTPData(r io.Reader, sc smtp.StatusCollector) error {
 	if err != nil {
 		return wrapErr(err)
 	}
+	committed := false
 	defer func() {
 		if err := buf.Remove(); err != nil {
 			s.log.Error("failed to remove buffered body", err)
 		}
 
 		// go-smtp will call Reset, but it will call Abort if delivery is non-nil.
-		s.cleanSession()
+		// That is exactly what is needed if we did not get to Commit: the
+		// delivery is still open then.
+		if committed {
+			s.cleanSession()
+		}
 	}()
 
 	if strings.EqualFold(header.Get("TLS-Required"), "No") {
@@ -570,6 +582,8 @@ func (s *Session) LMTPData(r io.Reader, sc smtp.StatusCollector) error {
 
 	// We can't really tell whether it is failed completely or succeeded
 	// so always commit. Should be harmless, anyway.
+	// Commit closes the delivery even if it fails.
+	committed = true
 	if err := s.delivery.Commit(bodyCtx); err != nil {
 		return wrapErr(err)
 	}
